@@ -130,6 +130,79 @@ def run(args):
                 if so[i]:
                     R.distinct.add((mech, "current", prefix, float(vs[i])))
             R.count(f"current:{mech}:{prefix}", n)
+    # ---- the DYNAMICS follow the published kinetics: update_states relaxes every gate toward the published steady state with the
+    #      published time constant, for non-default shift parameters too (exponential-Euler closed form, property C03)
+    nd = max(60, nrand // 4)
+    for (mech, gname, extra, specs, sing) in GATES:
+        inst = CLS[mech]()
+        sfx = gname.split("_")[0]
+        vs = rng.uniform(-150, 100, nd)
+        ex = [rng.uniform(lo, hi, nd) for (nm, lo, hi) in extra]
+        keyof = {"vt": "vt", "taumax": f"{mech}_taumax", "vx": f"{mech}_vx"}
+        P = {k: np.full(nd, float(d)) for k, d in inst.channel_params.items()}
+        for (nm, lo, hi), e in zip(extra, ex):
+            P[keyof[nm]] = e
+        S = {k: rng.uniform(0, 1, nd) for k in inst.channel_states}
+        sl = []
+        for sp in specs:
+            for i in range(nd):
+                sl.append(drv.specline(sp, [vs[i]] if sp in SPEC_ONE_ARG else [vs[i]] + [e[i] for e in ex]))
+        so = [drv.parse_one(l) for l in drv.batch(sl)]
+        for dt in (0.025, 1.0):
+            out = inst.update_states({k: jnp.asarray(v) for k, v in S.items()}, dt, jnp.asarray(vs), {k: jnp.asarray(v) for k, v in P.items()})
+            got = np.asarray(out[f"{mech}_{sfx}"], dtype=np.float64) * np.ones(nd)
+            for i in range(nd):
+                o0, o1 = so[i], so[nd + i]
+                if o0 is None or o1 is None:
+                    continue
+                if any(abs((vs[i] - (ex[pk][i] if pk is not None else 0.0)) - off) < 1e-3 for (pk, off) in sing):
+                    continue
+                if mech == "CaT" and vs[i] + ex[0][i] > -20.0:      # known finding N4 (clipped time constant), reported by the rate check
+                    continue
+                if specs[0].endswith("_inf"):
+                    xinf, tau = o0, o1
+                else:
+                    if o0 + o1 == 0:
+                        continue
+                    xinf, tau = o0 / (o0 + o1), 1.0 / (o0 + o1)
+                x0 = S[f"{mech}_{sfx}"][i]
+                want = xinf + (x0 - xinf) * math.exp(-dt / tau) if tau > 0 else xinf
+                R.evaluations += 1
+                if not (abs(got[i] - want) <= 1e-7):
+                    R.spec_fail(dict(kind="dynamics-differ-from-published", mech=mech, gate=sfx),
+                                f"{mech}.update_states: gate {sfx} moves from {x0!r} to {got[i]!r}; the published kinetics give {want!r}",
+                                dict(mech=mech, gate=sfx, v=float(vs[i]), dt=dt, x=float(x0), params={k: float(v[i]) for k, v in P.items()}), float(got[i]), published=want)
+        R.count(f"dynamics:{mech}.{sfx}", nd)
+    # ---- renaming changes only the names: every method of a renamed channel returns, under the renamed keys, bit-identical values
+    for mech in ("HH", "Na", "K", "Km", "CaL", "CaT", "Leak"):
+        a = CLS[mech](); b = CLS[mech](); b.change_name("ren" + mech)
+        ren = lambda k: ("ren" + k) if k.startswith(mech + "_") else k
+        n = 40
+        vs = rng.uniform(-150, 100, n)
+        S = {k: rng.uniform(0, 1, n) for k in a.channel_states}
+        P = {}
+        for k, d in a.channel_params.items():
+            P[k] = rng.uniform(-100, 60, n) if (k.startswith("e") or "_e" in k or k == "vt") else rng.uniform(0.5 * d, 1.5 * d, n) if d > 0 else rng.uniform(1.5 * d, 0.5 * d, n) if d < 0 else rng.uniform(-3, 3, n)
+        Sa, Pa = {k: jnp.asarray(v) for k, v in S.items()}, {k: jnp.asarray(v) for k, v in P.items()}
+        Sb, Pb = {ren(k): v for k, v in Sa.items()}, {ren(k): v for k, v in Pa.items()}
+        inp = dict(mech=mech, renamed_to="ren" + mech)
+        R.evaluations += 1
+        if sorted(b.channel_params) != sorted(map(ren, a.channel_params)) or sorted(b.channel_states) != sorted(map(ren, a.channel_states)):
+            R.spec_fail(dict(kind="rename-changes-names-wrongly", mech=mech), f"change_name: parameters/states {sorted(b.channel_params)} / {sorted(b.channel_states)}", inp, None)
+        for meth, call in (("update_states", lambda c, S_, P_: c.update_states(S_, 0.025, jnp.asarray(vs), P_)),
+                           ("init_state", lambda c, S_, P_: c.init_state(S_, jnp.asarray(vs), P_, 0.025)),
+                           ("compute_current", lambda c, S_, P_: {"": c.compute_current(S_, jnp.asarray(vs), P_)})):
+            try:
+                oa = call(a, Sa, Pa); ob = call(b, Sb, Pb)
+            except Exception as ex:
+                R.spec_fail(dict(kind="renamed-mechanism-raises", mech=mech, method=meth), f"{mech}.{meth} raises {type(ex).__name__} for the renamed channel", inp, repr(ex)[:200]); continue
+            if sorted(ob) != sorted(map(ren, oa)):
+                R.spec_fail(dict(kind="renamed-mechanism-keys", mech=mech, method=meth), f"{mech}.{meth}: renamed channel returns keys {sorted(ob)}, expected {sorted(map(ren, oa))}", inp, sorted(ob)); continue
+            for k in oa:
+                x, y = np.asarray(oa[k], dtype=np.float64) * np.ones(n), np.asarray(ob[ren(k)], dtype=np.float64) * np.ones(n)
+                if not np.array_equal(x, y, equal_nan=True):
+                    R.spec_fail(dict(kind="renamed-mechanism-differs", mech=mech, method=meth), f"{mech}.{meth}: renamed channel returns different values for {k}", inp, float(np.nanmax(np.abs(x - y))))
+    R.count("rename-invariance", 7)
     # ---- synapse current (Abbott & Marder)
     syn = IonotropicSynapse()
     n = nrand
